@@ -4,7 +4,7 @@
    compares with the committed pin (Properties/pins/C02.txt) so that a statement cannot be weakened
    silently; `Print Assumptions` lists the axioms it depends on (none are declared by this development). *)
 From Coq Require Import NArith List Bool String.
-From Octo Require Import Base.Bytes Crypto.Prims Model.Address Model.SsUdp Model.Vmess Model.Trojan Model.Socks5 Model.UdpTables Proofs.SsUdpFacts Proofs.VmessFacts Proofs.TrojanFacts Proofs.Socks5Facts Proofs.UdpTableFacts.
+From Octo Require Import Base.Bytes Crypto.Prims Model.Address Model.SsUdp Model.Vmess Model.Trojan Model.Socks5 Model.UdpTables Proofs.SsUdpFacts Proofs.VmessFacts Proofs.TrojanFacts Proofs.Socks5Facts Proofs.UdpTableFacts Generated.UdpAdapters Model.UdpAdapters Proofs.UdpAdapterFacts Proofs.UdpAdapterTableFacts.
 Import ListNotations.
 Set Printing Width 200.
 
@@ -66,6 +66,43 @@ Definition C02_reply_for_key_owner := @reply_sealed_for_key_owner.
 Definition C02_one_in_one_out := @one_in_one_out.
 
 
+(* adapter tables regenerated from the source (Generated/UdpAdapters.v), every protocol - the address the server sends a datagram to is its own target, either it travels with every datagram and the server uses that one, or the server uses the request header, the outbound is made for the binding target and the binding key contains the target *)
+Definition C02_adapters_target := @target_reaches_wire_or_key.
+(* after any history a datagram of an application addressed to a target goes out on a live binding of that application and the address the server will send it to is that target *)
+Definition C02_adapters_datagram_reaches_target := @datagram_reaches_addressed_target.
+(* adapter tables, every protocol - the label of a reply is the source the server reported, or the binding target in a protocol whose binding key contains the target *)
+Definition C02_adapters_label := @label_is_replying_target.
+(* after any history a reply read on a binding goes to the application of that binding labelled with the reported source or with the one and only target that binding has sent to *)
+Definition C02_adapters_reply_labelled := @reply_labelled_with_replier.
+(* the association key of the shadowsocks server (regenerated from associate_key) names the client session, the user and the client address *)
+Definition C02_adapters_assoc_key_parts := @assoc_key_parts_complete.
+(* two datagrams with the same association key have the same client session id and the same user (without replay protection also the same client address) *)
+Definition C02_adapters_assoc_key := @assoc_key_separates_sessions_and_users.
+(* the regenerated adapter tables are the ones the table model was first written with by hand *)
+Definition C02_adapters_match_model := @generated_adapters_match_model.
+(* sensitivity, vmess bindings keyed by the sender only - the second target of one application is sent to the first *)
+Definition C02_WITNESS_R1_collision := @R1_second_target_sent_to_first.
+(* ... so the delivery theorem is false for that shape *)
+Definition C02_WITNESS_R1 := @R1_datagram_reaches_target_refuted.
+(* sensitivity, shadowsocks labelling replies with the binding target - a reply from the second target is labelled with the first *)
+Definition C02_WITNESS_R2_mislabel := @R2_reply_mislabelled.
+(* ... so the label theorem is false for that shape *)
+Definition C02_WITNESS_R2 := @R2_reply_labelled_with_replier_refuted.
+(* sensitivity, an association key without the user - two users with equal session ids share an association *)
+Definition C02_WITNESS_R3 := @R3_users_share_an_association.
+
+Check @C02_adapters_target.
+Check @C02_adapters_datagram_reaches_target.
+Check @C02_adapters_label.
+Check @C02_adapters_reply_labelled.
+Check @C02_adapters_assoc_key_parts.
+Check @C02_adapters_assoc_key.
+Check @C02_adapters_match_model.
+Check @C02_WITNESS_R1_collision.
+Check @C02_WITNESS_R1.
+Check @C02_WITNESS_R2_mislabel.
+Check @C02_WITNESS_R2.
+Check @C02_WITNESS_R3.
 Check @C02_ss_legacy.
 Check @C02_ss_aes_client.
 Check @C02_ss_aes_client_eih.
@@ -104,3 +141,15 @@ Print Assumptions C02_assoc_owned_by_one_user.
 Print Assumptions C02_keys_separate_users.
 Print Assumptions C02_reply_for_key_owner.
 Print Assumptions C02_one_in_one_out.
+Print Assumptions C02_adapters_target.
+Print Assumptions C02_adapters_datagram_reaches_target.
+Print Assumptions C02_adapters_label.
+Print Assumptions C02_adapters_reply_labelled.
+Print Assumptions C02_adapters_assoc_key_parts.
+Print Assumptions C02_adapters_assoc_key.
+Print Assumptions C02_adapters_match_model.
+Print Assumptions C02_WITNESS_R1_collision.
+Print Assumptions C02_WITNESS_R1.
+Print Assumptions C02_WITNESS_R2_mislabel.
+Print Assumptions C02_WITNESS_R2.
+Print Assumptions C02_WITNESS_R3.
